@@ -340,5 +340,6 @@ func (m *EndpointInfoMap) Names() []string {
 		names = append(names, name)
 		return true
 	})
+	names = verifOrderNames(names)
 	return names
 }
